@@ -11,7 +11,8 @@ RULE = ("Hypothesis programs of 1-5 data directives (.byte/.db .word/.dw .dword 
         "0, +-1, +-(2^n-1), +-2^n, +-(2^n+1), 2^(n-1), literal or through symbols defined before/after; .ascii/.asciz with every "
         "escape form, all three quotes, raw newlines, <n> chunks for n in -2..257, over charsets bk utf-8 koi8-r latin-1 cp866; "
         ".blkb/.blkw counts incl. -1 0 65535 65536; .even/.odd/.align 1..64) placed at a steered address residue, followed by a "
-        "sentinel byte. Oracle: the directive rules of the property (value mod 2^n little endian, .dword high word first, codec "
+        "sentinel byte; in half of the programs the directives form a block of their own (.repeat body, included file, second "
+        "linked file at a non-zero offset) followed by .even / .align 4 and sentinels, so that the block's length matters. Oracle: the directive rules of the property (value mod 2^n little endian, .dword high word first, codec "
         "bytes, exact zero fill) and the must-fail set (|v| >= 2^n, negative or >= 2^16 count, <n> outside 0..255, unencodable "
         "character, unknown escape, word data at an odd address), asserted in both directions. Exhaustive sub-part: .even/.odd/"
         ".align m for every m in 1..64 at every residue 0..m-1 (and 0..7). Non-trivial: >= 1 boundary value, escape, error or "
@@ -117,7 +118,8 @@ def program(draw):
     n = draw(st.integers(1, 5))
     dirty_at = draw(st.integers(0, n - 1)) if draw(st.integers(0, 9)) < 3 else -1
     items = [draw(directive(charset, i == dirty_at)) for i in range(n)]
-    return {"kind": "c06", "residue": draw(st.integers(0, 7)), "items": items,
+    wrap = draw(st.sampled_from([None, None, None, "repeat", "include", "second"]))
+    return {"kind": "c06", "residue": draw(st.integers(0, 7)), "items": items, "wrap": wrap, "pad": draw(st.integers(1, 9)),
             "charset": charset, "base": draw(st.sampled_from([None, None, 0, 0o1001, 0o40000])),
             "ints": draw(st.lists(st.integers(0, 255), min_size=1, max_size=20)),
             "rules": sorted(draw(st.sets(st.sampled_from(["radix", "case-directive", "directive-alias", "blanks", "case-radix"]), max_size=3)))}
@@ -143,15 +145,17 @@ def encode_text(s, charset):
 
 
 def build(case):
-    """-> (text, image or None, error ids, labels, nontrivial)"""
+    """-> (text or (tree, mains), image or None, error ids, labels, nontrivial)"""
     style = render.Style(case["ints"], case["rules"])
     charset = case["charset"]
     base = case["base"]
     B = 0o1000 if base is None else base
+    wrap = case.get("wrap")
+    front = case.get("pad", 0) if wrap in ("include", "second") else 0   # bytes of the first file in front of the unit
     pre, post, body = [], [], []
-    if base is not None:
+    if base is not None and not front:
         pre.append({"k": "link", "e": ("num", base)})
-    image = bytearray()
+    image = bytearray(front)
     errors = set()
     labels = set()
     nt = False
@@ -287,14 +291,44 @@ def build(case):
                 labels.add("pad-nonzero")
     body.append({"k": "data", "d": "byte", "es": [("num", 0o377)]})
     image.append(0o377)
-    text, _ = render.render_file(pre + body + post, style)
     labels.add("charset-" + charset)
-    return text, (None if errors else bytes(image)), errors, sorted(labels), nt
+    if not wrap:
+        text, _ = render.render_file(pre + body + post, style)
+        return text, (None if errors else bytes(image)), errors, sorted(labels), nt
+    # the directives stand in a block of their own (a .repeat body, an included file, a second linked file); what follows the
+    # block is sensitive to its length
+    labels.add("wrap-" + wrap)
+    tail = "\t.even\n\t.byte 376\n\t.align 4\n\t.byte 375\n"
+    if (B + len(image)) % 2:
+        image += b"\0"
+    image.append(0o376)
+    image += b"\0" * ((-(B + len(image))) % 4)
+    image.append(0o375)
+    if wrap == "repeat":
+        text, _ = render.render_file(pre + [{"k": "repeat", "e": ("num", 1), "body": body}] + post, style)
+        return text + tail, (None if errors else bytes(image)), errors, sorted(labels), nt
+    unit, _ = render.render_file(pre + body + post, style)
+    head = (f"\t.link {base:o}\n" if base is not None else "") + f"\t.blkb {front:o}\n"
+    if wrap == "include":
+        files = ({"main.mac": head + "\t.include \"unit.mac\"\n" + tail, "unit.mac": unit}, ["main.mac"])
+    else:
+        files = ({"a.mac": head, "b.mac": unit, "c.mac": tail}, ["a.mac", "b.mac", "c.mac"])
+    return files, (None if errors else bytes(image)), errors, sorted(labels), nt
+
+
+def text_of(text):
+    if isinstance(text, tuple):
+        return "".join(f";;; {n}\n{t}" for n, t in sorted(text[0].items()))
+    return text
 
 
 def judge(case, built=None):
     text, image, errors, labels, nt = built or build(case)
-    v = oracle.single(text, charset=case["charset"])
+    if isinstance(text, tuple):
+        v = {"tree": text[0], "mains": text[1], "charset": case["charset"]}
+        text = text_of(text)
+    else:
+        v = oracle.single(text, charset=case["charset"])
     if errors:
         c = oracle.expect_error(v, sorted(errors), need_all=False)
     else:
@@ -311,7 +345,7 @@ def judge(case, built=None):
 def shards(tier):
     specs = [{"part": "align"}, {"part": "forms"}]
     k = 16
-    per = (5000 if tier == "quick" else 100000) // 3 // k
+    per = (20000 if tier == "quick" else 150000) // 3 // k
     for i in range(k):
         specs.append({"part": "random", "i": i, "examples": per})
     return specs
@@ -373,8 +407,9 @@ def run_shard(spec, ctx):
 
     def check(case):
         built = build(case)
-        ctx.case((built[0], case["charset"]), built[4], built[3] + (["reject"] if built[2] else ["accept"]),
-                 sample={"text": built[0], "charset": case["charset"]} if ctx.evaluations % 37 == 11 else None)
+        txt = text_of(built[0])
+        ctx.case((txt, case["charset"]), built[4], built[3] + (["reject"] if built[2] else ["accept"]),
+                 sample={"text": txt, "charset": case["charset"]} if ctx.evaluations % 37 == 11 else None)
         res = judge(case, built)
         if res:
             return (res[0][0], res[0][1], case)
